@@ -135,7 +135,7 @@ def s3(tier):
                 for place in ('before', 'after'):
                     for ctx in ('return', 'if', 'nested', 'lambda'):
                         out.append(Prog(o, (cs,), ctx, 'global', (kind, which, place)))
-                if not kind.startswith('nested_'):
+                if not kind.startswith(('nested_', 'lambda_')):
                     out.append(Prog(o, (cs,), 'forloop', 'global', (kind, which, 'loopafter')))
         # foreign and combined stars
         for va2 in ('own', 'none', 'other', 'both'):
